@@ -2,9 +2,9 @@ package lens
 
 import (
 	"bytes"
-	"crypto/x509"
 	"context"
 	"crypto/sha256"
+	"crypto/x509"
 	"encoding/base64"
 	"encoding/hex"
 	"errors"
@@ -35,10 +35,10 @@ func (c15) Rule() string {
 func (c15) Components() map[string]string {
 	return map[string]string{
 		"crl.FileCache (Get, Set, NewFileCache)": "real",
-		"internal/file.WriteFile":               "real",
-		"os":                                    "simos shim over tmpfs (faults, confinement monitor)",
-		"clock":                                 "synctest bubble; next-update instants reached exactly",
-		"reference model":                       "map url -> candidate bundles with next-update times",
+		"internal/file.WriteFile":                "real",
+		"os":                                     "simos shim over tmpfs (faults, confinement monitor)",
+		"clock":                                  "synctest bubble; next-update instants reached exactly",
+		"reference model":                        "map url -> candidate bundles with next-update times",
 	}
 }
 
